@@ -1,13 +1,275 @@
-import ScryerModel.Model.ReadVars
-/-! # C45 — read_term/2 reports variables, names and singletons exactly (work in progress) -/
-namespace Scryer.ReadVars
+import ScryerModel.Proofs.ReadVars
+/-!
+# C45 — read_term/2 reports variables, names and singletons exactly
 
-/-- Layout and comments between the tokens do not change the variable occurrences. -/
+`Model/ReadVars.lean` has two layers.
+
+* The **specification** over the clause's variable occurrences (`occsOf toks`, left to right):
+  `specVariables` (distinct variables, first occurrence first; every `_` is its own variable),
+  `specVariableNames` (`Name=Var` for the named ones, same order), `specSingletons` (the named
+  ones — `_`-prefixed included — whose variable occurs once).
+* The **mechanism**, mirrored from `read.rs`/`machine_state.rs`: the dictionary filled in the
+  heap writer's visiting order (ANY permutation `order` of the occurrence positions — the code's
+  order is breadth-first), `IndexMap` insert-or-replace for anonymous variables under the key
+  `akey position`, the pre-order walk computing first-visit flags and indices, the stable sort by
+  index.
+
+`C45_mechanism_eq_spec` proves mechanism = specification for every clause, every visiting order and
+every injective `akey`. The code pinned at the start of this work used a key that is NOT injective
+(the heap length, equal for neighbouring anonymous variables): `C45_pinned_key_collision` shows
+that this loses variables (finding C45-1; the repaired code keys by argument site).
+-/
+namespace Scryer.ReadVars
+open List
+
+/-! ## Tokens -/
+
+/-- `_` alone is the anonymous variable; every other variable token — `_A`, `__`, `_1` included —
+    is a named variable carrying its full text as name. -/
+theorem C45_classify (name : String) :
+    (name = "_" → classify name = .anon) ∧ (name ≠ "_" → classify name = .named name) := by
+  unfold classify
+  constructor <;> intro h <;> simp [h]
+
+/-- Layout and comments between the tokens do not change the variable occurrences (and so none
+    of the three lists). -/
 theorem C45_layout_irrelevant (toks : List Tok) :
     occsOf (toks.filter (· != .layout)) = occsOf toks := by
   induction toks with
   | nil => rfl
   | cons t r ih =>
-    cases t <;> simp_all [List.filter, occsOf]
+    cases t with
+    | other => rw [filter_cons_of_pos (by decide)]; simpa [occsOf] using ih
+    | layout => rw [filter_cons_of_neg (by decide)]; simpa [occsOf] using ih
+    | var n =>
+      rw [filter_cons_of_pos (by simp)]
+      simp only [occsOf, ih]
+
+/-- Tokens that are not variable tokens (atoms, quoted atoms, strings, numbers, `0'c`, punctuation)
+    contribute nothing, wherever they stand. -/
+theorem C45_other_tokens_irrelevant (toks : List Tok) :
+    occsOf (toks.filter (· != .other)) = occsOf toks := by
+  induction toks with
+  | nil => rfl
+  | cons t r ih =>
+    cases t with
+    | other => rw [filter_cons_of_neg (by decide)]; simpa [occsOf] using ih
+    | layout => rw [filter_cons_of_pos (by decide)]; simpa [occsOf] using ih
+    | var n =>
+      rw [filter_cons_of_pos (by simp)]
+      simp only [occsOf, ih]
+
+/-! ## Identity of variables -/
+
+/-- Two occurrences denote the same variable iff they are the same occurrence or carry the same
+    name: same name ⇒ same variable, different names ⇒ different variables, and an anonymous
+    occurrence is different from every other occurrence. -/
+theorem C45_variable_identity (occs : List Occ) (i j : Nat) (hi : i < occs.length) (hj : j < occs.length) :
+    (varsOf occs)[i]? = (varsOf occs)[j]? ↔
+      i = j ∨ ∃ n, occs[i]? = some (.named n) ∧ occs[j]? = some (.named n) := by
+  rw [getElem?_varsOf, getElem?_varsOf, getElem?_eq_getElem hi, getElem?_eq_getElem hj]
+  simp only [Option.map_some, Option.some.injEq]
+  cases h1 : occs[i] with
+  | named a =>
+    cases h2 : occs[j] with
+    | named b =>
+      simp only [toV, V.named.injEq, Occ.named.injEq]
+      constructor
+      · intro h; exact Or.inr ⟨a, rfl, h.symm⟩
+      · rintro (h | ⟨n, rfl, rfl⟩)
+        · subst h; rw [h1] at h2; cases h2; rfl
+        · rfl
+    | anon =>
+      simp only [toV, reduceCtorEq, and_false, exists_false, or_false, false_iff]
+      intro h; subst h; rw [h1] at h2; cases h2
+  | anon =>
+    cases h2 : occs[j] with
+    | named b =>
+      simp only [toV, reduceCtorEq, false_and, exists_false, or_false, false_iff]
+      intro h; subst h; rw [h1] at h2; cases h2
+    | anon =>
+      simp only [toV, V.site.injEq, reduceCtorEq, false_and, exists_false, or_false]
+
+/-! ## The specification has the properties the statement asks for -/
+
+/-- `variables/1`: no duplicates, exactly the variables of the term, a subsequence of the
+    occurrence sequence, ordered by first occurrence. -/
+theorem C45_variables (occs : List Occ) :
+    (specVariables occs).Nodup ∧
+    (∀ v, v ∈ specVariables occs ↔ v ∈ varsOf occs) ∧
+    (specVariables occs).Sublist (varsOf occs) ∧
+    (specVariables occs).Pairwise (fun a b => (varsOf occs).idxOf a < (varsOf occs).idxOf b) :=
+  ⟨nodup_dedupFirst _, fun _ => mem_dedupFirst, dedupFirst_sublist _, dedupFirst_order _⟩
+
+/-- every anonymous occurrence is a variable of its own in `variables/1`. -/
+theorem C45_anonymous_in_variables (occs : List Occ) (i : Nat) (h : occs[i]? = some .anon) :
+    V.site i ∈ specVariables occs := by
+  rw [specVariables, mem_dedupFirst, mem_iff_getElem?]
+  exact ⟨i, by rw [getElem?_varsOf, h]; rfl⟩
+
+theorem mem_varsOf_named (occs : List Occ) (n : String) : V.named n ∈ varsOf occs ↔ Occ.named n ∈ occs := by
+  simp only [mem_iff_getElem?, getElem?_varsOf]
+  constructor
+  · rintro ⟨i, hi⟩
+    cases h : occs[i]? with
+    | none => simp [h] at hi
+    | some o =>
+      cases o with
+      | named m => simp [h, toV] at hi; exact ⟨i, by rw [h, hi]⟩
+      | anon => simp [h, toV] at hi
+  · rintro ⟨i, hi⟩; exact ⟨i, by simp [hi, toV]⟩
+
+/-- `variable_names/1`: exactly one `Name=Var` per name occurring in the clause, `Var` being the
+    variable of that name (an anonymous variable is never named), names pairwise different, and
+    the variables in the same relative order as in `variables/1`. -/
+theorem C45_variable_names (occs : List Occ) :
+    (∀ e, e ∈ specVariableNames occs ↔ ∃ n, e = (n, V.named n) ∧ Occ.named n ∈ occs) ∧
+    ((specVariableNames occs).map (·.1)).Nodup ∧
+    ((specVariableNames occs).map (·.2)).Sublist (specVariables occs) := by
+  refine ⟨?_, ?_, ?_⟩
+  · intro e
+    simp only [specVariableNames, mem_filterMap]
+    constructor
+    · rintro ⟨v, hv, he⟩
+      cases v with
+      | named n =>
+        simp only [nameEntry, Option.some.injEq] at he
+        exact ⟨n, he.symm, (mem_varsOf_named occs n).mp (mem_dedupFirst.mp hv)⟩
+      | site i => simp [nameEntry] at he
+    · rintro ⟨n, rfl, hn⟩
+      exact ⟨.named n, mem_dedupFirst.mpr ((mem_varsOf_named occs n).mpr hn), rfl⟩
+  · have hnd := nodup_dedupFirst (varsOf occs)
+    unfold specVariableNames specVariables
+    generalize dedupFirst (varsOf occs) = L at hnd
+    induction L with
+    | nil => simp
+    | cons v L ih =>
+      rw [nodup_cons] at hnd
+      cases v with
+      | site i => simpa [filterMap_cons, nameEntry] using ih hnd.2
+      | named n =>
+        simp only [filterMap_cons, nameEntry, map_cons, nodup_cons]
+        refine ⟨?_, ih hnd.2⟩
+        intro hmem
+        obtain ⟨e, he, hen⟩ := mem_map.mp hmem
+        obtain ⟨w, hw, hwe⟩ := mem_filterMap.mp he
+        cases w with
+        | named m =>
+          simp only [nameEntry, Option.some.injEq] at hwe
+          subst hwe
+          simp only at hen
+          subst hen
+          exact hnd.1 hw
+        | site i => simp [nameEntry] at hwe
+  · unfold specVariableNames
+    generalize specVariables occs = L
+    induction L with
+    | nil => simp
+    | cons v L ih =>
+      cases v with
+      | site i => simpa [filterMap_cons, nameEntry] using ih.cons (V.site i)
+      | named n => simpa [filterMap_cons, nameEntry] using ih.cons_cons (V.named n)
+
+theorem count_varsOf_named_aux (n : String) : ∀ (l : List Occ) (k : Nat),
+    (l.mapIdx fun i => toV (i + k)).count (V.named n) = l.count (Occ.named n)
+  | [], _ => rfl
+  | o :: l, k => by
+    rw [mapIdx_cons]
+    have ih := count_varsOf_named_aux n l (k + 1)
+    have hf : (fun i => toV (i + 1 + k)) = fun i => toV (i + (k + 1)) := by
+      funext i; rw [Nat.add_assoc, Nat.add_comm 1 k]
+    rw [hf]
+    cases o with
+    | named m =>
+      by_cases h : m = n
+      · subst h; simp [toV, ih]
+      · have h1 : V.named m ≠ V.named n := by simp [h]
+        have h2 : Occ.named m ≠ Occ.named n := by simp [h]
+        simp only [toV]
+        rw [count_cons_of_ne h1, count_cons_of_ne h2, ih]
+    | anon =>
+      have h1 : V.site (0 + k) ≠ V.named n := by simp
+      have h2 : Occ.anon ≠ Occ.named n := by simp
+      simp only [toV]
+      rw [count_cons_of_ne h1, count_cons_of_ne h2, ih]
+
+theorem count_varsOf_named (occs : List Occ) (n : String) :
+    (varsOf occs).count (V.named n) = occs.count (Occ.named n) := by
+  have := count_varsOf_named_aux n occs 0
+  simpa [varsOf] using this
+
+/-- `singletons/1`: exactly the names that occur once in the clause (whether or not they start
+    with `_`), each with its variable; a sub-list of `variable_names/1`. -/
+theorem C45_singletons (occs : List Occ) :
+    (∀ e, e ∈ specSingletons occs ↔ ∃ n, e = (n, V.named n) ∧ occs.count (Occ.named n) = 1) ∧
+    (specSingletons occs).Sublist (specVariableNames occs) := by
+  refine ⟨?_, filter_sublist⟩
+  intro e
+  simp only [specSingletons, mem_filter, (C45_variable_names occs).1 e, beq_iff_eq]
+  constructor
+  · rintro ⟨⟨n, rfl, _⟩, hc⟩
+    exact ⟨n, rfl, by rwa [count_varsOf_named] at hc⟩
+  · rintro ⟨n, rfl, hc⟩
+    refine ⟨⟨n, rfl, ?_⟩, by rwa [count_varsOf_named]⟩
+    exact count_pos_iff.mp (by omega)
+
+/-- an `_`-prefixed name that occurs once IS reported as a singleton (the statement's
+    "including _-prefixed ones"), an anonymous variable never. -/
+example : specSingletons (occsOf [.var "_A", .other, .var "_", .var "B", .var "B"]) = [("_A", .named "_A")] := by
+  decide
+
+/-! ## The mirrored mechanism computes the specification -/
+
+/-- For every clause, every order in which the heap writer meets the occurrences and every
+    injective key for anonymous variables: `variables` and `variable_names` are exactly the
+    specified lists, `singletons` is the specified list up to order. -/
+theorem C45_mechanism_eq_spec (akey : Nat → Nat) (hk : ∀ i j, akey i = akey j → i = j) (occs : List Occ)
+    (order : List Nat) (hp : order ~ List.range occs.length) :
+    (mechanism akey occs order).variables = specVariables occs ∧
+    (mechanism akey occs order).variableNames = specVariableNames occs ∧
+    (mechanism akey occs order).singletons ~ specSingletons occs := by
+  obtain ⟨h1, h2, h3⟩ := mechanism_eq akey hk occs hp
+  refine ⟨h1, h2, ?_⟩
+  rw [h3, specSingletons_eq]
+  exact (dictVars_perm occs hp).filterMap _
+
+/-- … hence the same singletons, each exactly once. -/
+theorem C45_mechanism_singletons_mem (akey : Nat → Nat) (hk : ∀ i j, akey i = akey j → i = j)
+    (occs : List Occ) (order : List Nat) (hp : order ~ List.range occs.length) (e : String × V) :
+    e ∈ (mechanism akey occs order).singletons ↔ ∃ n, e = (n, V.named n) ∧ occs.count (Occ.named n) = 1 := by
+  rw [(C45_mechanism_eq_spec akey hk occs order hp).2.2.mem_iff]
+  exact (C45_singletons occs).1 e
+
+/-- When the dictionary is filled in left-to-right order the three lists are the specification
+    exactly, order of the singletons included. -/
+theorem C45_mechanism_eq_spec_preorder (akey : Nat → Nat) (hk : ∀ i j, akey i = akey j → i = j)
+    (occs : List Occ) : mechanism akey occs (List.range occs.length) = spec occs := by
+  obtain ⟨h1, h2, h3⟩ := mechanism_eq akey hk occs (Perm.refl _)
+  have h4 : (mechanism akey occs (List.range occs.length)).singletons = specSingletons occs := by
+    rw [h3, specSingletons_eq, ← length_varsOf, filterMap_getElem?_range]
+  cases hm : mechanism akey occs (List.range occs.length)
+  simp only [hm] at h1 h2 h4
+  simp [spec, h1, h2, h4]
+
+/-! ## Witnesses -/
+
+/-- The pinned key (the heap length at the time the anonymous variable is met) is the same for
+    neighbouring anonymous variables. With such a key the mechanism loses a variable:
+    `f(_,_)` reports one variable instead of two. -/
+theorem C45_pinned_key_collision :
+    (mechanism (fun _ => 0) [.anon, .anon] [0, 1]).variables = [V.site 1] ∧
+    specVariables [.anon, .anon] = [V.site 0, V.site 1] := by
+  constructor <;> decide
+
+/-- non-vacuity: a clause with repetition, `_`, `_A`; the heap writer's order differs from
+    left-to-right (breadth-first on `f(g(A),B,_C,_,A,_)`: B,_C,_,A,_ before the nested A). -/
+example :
+    mechanism id (occsOf [.other, .var "A", .other, .var "B", .var "_C", .layout, .var "_", .var "A", .var "_"])
+      [1, 2, 3, 4, 5, 0] =
+    { variables := [.named "A", .named "B", .named "_C", .site 3, .site 5],
+      variableNames := [("A", .named "A"), ("B", .named "B"), ("_C", .named "_C")],
+      singletons := [("B", .named "B"), ("_C", .named "_C")] } := by decide
+
+example : [1, 2, 3, 4, 5, 0] ~ List.range 6 := by decide
 
 end Scryer.ReadVars
